@@ -108,7 +108,7 @@ func c09Hostile(t *rapid.T, in *Intent) {
 }
 
 type c09TmplOpt struct {
-	MixinParam bool // endpoint parameters typed by mixed-in types
+	MixinParam                             bool // endpoint parameters typed by mixed-in types
 	Mixin, Collector, Views, Nested, Names bool
 	MinChain                               int // minimal mixin chain depth (0 = 1)
 	// avoid the shapes of known findings (decided by the caller through knownActive)
